@@ -40,7 +40,9 @@
 (*   p        the run's parameters: n (dataset length - shared), recs      *)
 (*            (positions of `Reconnecting` items - shared), acts (events   *)
 (*            its strategy opens an order on), fatalAt (events at which    *)
-(*            sending hits an unrecoverable execution-link error)          *)
+(*            sending hits an unrecoverable execution-link error),         *)
+(*            srcFailAt (empty, or {k}: the market data source fails - its  *)
+(*            stream panics - after having yielded k of the n items)        *)
 (*   cursor   number of dataset items the market forwarder has pushed      *)
 (*   feed     the engine's FIFO feed                                       *)
 (*   consumed dataset items the engine has processed, in order             *)
@@ -51,7 +53,8 @@
 (*            latest market item this run's engine has processed           *)
 (*   stamps   the clock reading each sent order was stamped with (request   *)
 (*            time -> fill, balance and position-entry timestamps)          *)
-(*   sdSent, phase ("run" -> "stopped" -> "done"), fatal, summary          *)
+(*   sdSent, phase ("run" -> "stopped" -> "done", or "run" -> "failed"),   *)
+(*   fatal, summary                                                        *)
 (*                                                                         *)
 (* Every action is  run' = [run EXCEPT ![b] = F(run[b])]  with F a         *)
 (* function of the run's own record (enabling predicate CanX, effect DoX) -   *)
@@ -82,6 +85,19 @@
 (* on a fatal error"); it is model-checked but not driven in the            *)
 (* implementation (there shutdown_after_backtest may find the feed receiver *)
 (* dropped and panic - outside C20).                                        *)
+(* A data source that fails part way (SourceFails: the forwarder task ends  *)
+(* with a JoinError) ends the run WITHOUT a summary: shutdown_after_backtest*)
+(* propagates the error (`market_to_engine.await?`), backtest() returns     *)
+(* Err; Shutdown is never sent.  A summary is therefore made only if every  *)
+(* item was consumed (or the engine stopped on a fatal error).  What        *)
+(* run_backtests does with the other runs of the batch when one fails       *)
+(* (try_join_all: the batch is Err, the other futures are dropped) is not   *)
+(* part of the property and not modelled: a run that returns no summary is  *)
+(* simply not judged beyond the prefix it processed.                        *)
+(* Exchange times need not increase along the dataset (late / re-published  *)
+(* ticks): the engine processes every item whatever its time; the model's   *)
+(* clock index is only read when an order is stamped (the binding opens no  *)
+(* order on an item older than its predecessor).                            *)
 (* Dataset items are ALL items of the market stream, Reconnecting items     *)
 (* ("r") included, wherever they stand - also before the first market item.*)
 (* The clock of a run is a function of that run's own consumed prefix       *)
@@ -96,7 +112,7 @@
 EXTENDS Naturals, Sequences, FiniteSets, TLC
 
 CONSTANTS Runs,       \* identities of the concurrent backtests
-          Params,     \* Params[b] = [n, recs, acts, fatalAt]
+          Params,     \* Params[b] = [n, recs, acts, fatalAt, srcFailAt]
           OrderKinds  \* account events an accepted order produces: a subset of
                       \* {"order", "balance", "trade"} (the mock exchange produces all three -
                       \* smaller sets keep the exhaustive models small)
@@ -134,12 +150,17 @@ IsPrefix(s, t) == Len(s) <= Len(t) /\ s = SubSeq(t, 1, Len(s))
 (* Single-run transition functions.                                        *)
 (***************************************************************************)
 \* market_to_engine: stream.forward_to(feed_tx) - next dataset item, in index order
-CanForward(r) == r.phase = "run" /\ r.cursor < r.p.n
+CanForward(r) == r.phase = "run" /\ r.cursor < r.p.n /\ r.cursor \notin r.p.srcFailAt
 DoForward(r)  == [r EXCEPT !.cursor = @ + 1, !.feed = Append(@, DataItem(r.p, r.cursor + 1))]
 
 \* execution manager / mock exchange -> account_to_engine -> feed
 CanRespond(r, x) == r.phase = "run" /\ x \in r.exch
 DoRespond(r, x)  == [r EXCEPT !.exch = @ \ {x}, !.feed = Append(@, x)]
+
+\* the stream of the data source panics after k items: the forwarder task ends with a JoinError,
+\* `market_to_engine.await?` returns it, backtest() returns Err - no Shutdown, no summary
+CanSourceFail(r) == r.phase = "run" /\ r.cursor \in r.p.srcFailAt
+DoSourceFail(r)  == [r EXCEPT !.phase = "failed"]
 
 \* shutdown_after_backtest: `market_to_engine.await?` THEN `feed_tx.send(Shutdown)`
 ForwarderDone(r)   == r.cursor = r.p.n
@@ -179,6 +200,7 @@ Step1(r, r2) ==
     \/ CanForward(r) /\ r2 = DoForward(r)
     \/ \E x \in r.exch : CanRespond(r, x) /\ r2 = DoRespond(r, x)
     \/ CanSendShutdown(r) /\ r2 = DoSendShutdown(r)
+    \/ CanSourceFail(r) /\ r2 = DoSourceFail(r)
     \/ CanStep(r) /\ r2 = DoStep(r)
     \/ CanEngineShutdown(r) /\ r2 = DoEngineShutdown(r)
 
@@ -190,6 +212,7 @@ Set(b, r2) == run' = [run EXCEPT ![b] = r2]
 Forward(b)         == CanForward(run[b]) /\ Set(b, DoForward(run[b]))
 ExchangeRespond(b) == \E x \in run[b].exch : CanRespond(run[b], x) /\ Set(b, DoRespond(run[b], x))
 SendShutdown(b)    == CanSendShutdown(run[b]) /\ Set(b, DoSendShutdown(run[b]))
+SourceFails(b)     == CanSourceFail(run[b]) /\ Set(b, DoSourceFail(run[b]))
 StepMarket(b)      == CanStep(run[b]) /\ Head(run[b].feed).t = "m"  /\ Set(b, DoStepMarket(run[b]))
 StepDisc(b)        == CanStep(run[b]) /\ Head(run[b].feed).t = "r"  /\ Set(b, DoStepDisc(run[b]))
 StepAccount(b)     == CanStep(run[b]) /\ Head(run[b].feed).t = "a"  /\ Set(b, DoStepAccount(run[b]))
@@ -197,7 +220,7 @@ StepShutdown(b)    == CanStep(run[b]) /\ Head(run[b].feed).t = "sd" /\ Set(b, Do
 EngineStep(b)      == StepMarket(b) \/ StepDisc(b) \/ StepAccount(b) \/ StepShutdown(b)
 EngineShutdown(b)  == CanEngineShutdown(run[b]) /\ Set(b, DoEngineShutdown(run[b]))
 
-RunNext(b) == Forward(b) \/ ExchangeRespond(b) \/ SendShutdown(b) \/ EngineStep(b) \/ EngineShutdown(b)
+RunNext(b) == Forward(b) \/ ExchangeRespond(b) \/ SendShutdown(b) \/ SourceFails(b) \/ EngineStep(b) \/ EngineShutdown(b)
 
 Init == run = [b \in Runs |-> InitRun(Params[b])]
 Next == \E b \in Runs : RunNext(b)
@@ -209,6 +232,7 @@ FairSpec == Spec /\ \A b \in Runs : WF_vars(RunNext(b))
 (***************************************************************************)
 ParamOK(p) == /\ p.n \in Nat /\ p.recs \subseteq 1..p.n
               /\ p.acts \subseteq (1..p.n) \ p.recs /\ p.fatalAt \subseteq p.acts
+              /\ p.srcFailAt \subseteq 0..(p.n - 1) /\ Cardinality(p.srcFailAt) <= 1
 
 MarketItems(s) == SelectSeq(s, LAMBDA x : x.t \in {"m", "r"})
 
@@ -217,7 +241,7 @@ TypeOK1(r) ==
     /\ ParamOK(r.p)
     /\ r.cursor \in 0..r.p.n
     /\ r.clock \in 0..r.p.n
-    /\ r.phase \in {"run", "stopped", "done"}
+    /\ r.phase \in {"run", "stopped", "done", "failed"}
     /\ r.fatal \in BOOLEAN /\ r.sdSent \in BOOLEAN
     /\ \A j \in 1..Len(r.feed) : r.feed[j].t \in {"m", "r", "a", "sd"}
     /\ \A x \in r.exch : x.t = "a"
@@ -227,8 +251,12 @@ TypeOK1(r) ==
 PrefixAlways1(r) == /\ Len(r.consumed) <= r.p.n
                     /\ \A j \in 1..Len(r.consumed) : r.consumed[j] = DataItem(r.p, j)   \* = IsPrefix(consumed, Dataset)
 
-\* CompleteInOrder: an engine that stopped without a fatal error has processed the whole dataset
-CompleteInOrder1(r) == (r.phase \in {"stopped", "done"} /\ ~r.fatal) => r.consumed = Dataset(r.p)
+\* CompleteInOrder: an engine that stopped without a fatal error has processed the whole dataset;
+\* a summary is made only if every item was consumed (or the engine stopped on a fatal error) -
+\* in particular never for a run whose data source failed
+CompleteInOrder1(r) == /\ (r.phase \in {"stopped", "done"} /\ ~r.fatal) => r.consumed = Dataset(r.p)
+                       /\ (r.summary.made /\ ~r.fatal) => r.consumed = Dataset(r.p)
+                       /\ r.phase = "failed" => (~r.summary.made /\ ~r.sdSent /\ r.cursor \in r.p.srcFailAt)
 
 \* behind what was consumed the feed holds exactly the items forwarded so far, in order
 \* (with PrefixAlways: consumed \o MarketItems(feed) = SubSeq(Dataset, 1, cursor));
@@ -289,10 +317,11 @@ Mono1(r, r2) == /\ IsPrefix(r.consumed, r2.consumed)
                 /\ IsPrefix(r.sent, r2.sent)
                 /\ IsPrefix(r.stamps, r2.stamps) /\ r.clock <= r2.clock
                 /\ IsPrefix(r.applied, r2.applied)
-                /\ r.phase = "done" => r2 = r
+                /\ r.phase \in {"done", "failed"} => r2 = r
                 /\ r.phase = "stopped" => r2.phase # "run"
 Monotone == [][\A b \in Runs : Mono1(run[b], run'[b])]_vars
 
-\* under weak fairness of every run's tasks, every backtest finishes
-Finishes == \A b \in Runs : <>(run[b].phase = "done")
+\* under weak fairness of every run's tasks, every backtest finishes: with a summary, or - if
+\* and only if its data source fails - with an error
+Finishes == \A b \in Runs : <>(run[b].phase = IF Params[b].srcFailAt = {} THEN "done" ELSE "failed")
 =============================================================================
